@@ -306,6 +306,226 @@ theorem specRun_state (e : Env D V) (n : Nat) (sel : D → D) :
     simp only [specRun, stateAt, List.foldl_cons]
     rw [specRun_state e n sel ops, specStep_state]; rfl
 
+/-! ## hierarchy children -/
+
+def selsOf (c : List (Lvl D)) : List (D → D) := c.map (·.sel)
+
+def hviewS (v : Option D) : List (D → D) → Option D
+  | [] => v
+  | s :: ss => (hviewS v ss).map s
+
+theorem hview_eq (v : Option D) : ∀ c : List (Lvl D), hview v c = hviewS v (selsOf c)
+  | [] => rfl
+  | l :: ps => by simp only [hview, selsOf, List.map_cons, hviewS]; rw [hview_eq v ps]; rfl
+
+theorem hview_congr (v : Option D) {c c' : List (Lvl D)} (h : selsOf c = selsOf c') :
+    hview v c = hview v c' := by rw [hview_eq, hview_eq, h]
+
+/-- every entry of a level that is not outdated is what a fresh hierarchy would return -/
+def HInv (v : Feat → Option D) : List (Lvl D) → Prop
+  | [] => True
+  | l :: ps => (l.dirty = false → ∀ f d, get f l.cache = some d → hview (v f) (l :: ps) = some d)
+               ∧ HInv v ps
+
+theorem hinv_head_congr {v : Feat → Option D} {l : Lvl D} {ps ps' : List (Lvl D)}
+    (hs : selsOf ps = selsOf ps')
+    (h : l.dirty = false → ∀ f d, get f l.cache = some d → hview (v f) (l :: ps) = some d) :
+    l.dirty = false → ∀ f d, get f l.cache = some d → hview (v f) (l :: ps') = some d := by
+  intro hd f d hg
+  have := h hd f d hg
+  simp only [hview] at this ⊢
+  rw [← hview_congr (v f) hs]; exact this
+
+theorem hread_spec {σ : Type} (g : σ → Feat → σ × Option D) (P : σ → Prop)
+    (v : Feat → Option D) (hg : ∀ r f, P r → (g r f).2 = v f ∧ P (g r f).1) (f : Feat) :
+    ∀ (chain : List (Lvl D)) (r : σ), P r → (∀ l ∈ chain, l.dirty = false) → HInv v chain →
+      (hread g r chain f).2 = hview (v f) chain ∧ P (hread g r chain f).1.1 ∧
+      HInv v (hread g r chain f).1.2 ∧ selsOf (hread g r chain f).1.2 = selsOf chain
+  | [], r, hP, _, _ => by
+    obtain ⟨h1, h2⟩ := hg r f hP
+    exact ⟨h1, h2, trivial, rfl⟩
+  | l :: ps, r, hP, hc, hI => by
+    obtain ⟨hl, hps⟩ := hI
+    have hcl : l.dirty = false := hc l List.mem_cons_self
+    simp only [hread]
+    cases hget : get f l.cache with
+    | some d => exact ⟨(hl hcl f d hget).symm, hP, ⟨hl, hps⟩, rfl⟩
+    | none =>
+      obtain ⟨h1, h2, h3, h4⟩ := hread_spec g P v hg f ps r hP
+        (fun l' hl' => hc l' (List.mem_cons_of_mem _ hl')) hps
+      simp only
+      cases hx : (hread g r ps f).2 with
+      | none =>
+        rw [hx] at h1
+        refine ⟨by simp only [hview, ← h1, Option.map_none], h2, ⟨hinv_head_congr h4.symm hl, h3⟩, ?_⟩
+        simp only [selsOf, List.map_cons] at h4 ⊢; rw [h4]
+      | some d =>
+        rw [hx] at h1
+        refine ⟨by simp only [hview, ← h1, Option.map_some], h2, ⟨?_, h3⟩, ?_⟩
+        · intro _ f' d' hg'
+          simp only [get] at hg'
+          by_cases hf : f = f'
+          · subst hf
+            simp only [if_true, Option.some.injEq] at hg'
+            subst hg'
+            simp only [hview]
+            rw [hview_congr (v f) h4, ← h1]; rfl
+          · simp only [hf, if_false] at hg'
+            have := hinv_head_congr h4.symm hl hcl f' d' hg'
+            simpa only [hview] using this
+        · simp only [selsOf, List.map_cons] at h4 ⊢; rw [h4]
+
+theorem hinv_refresh (v : Feat → Option D) : ∀ c : List (Lvl D), HInv v (hrefresh c)
+  | [] => trivial
+  | l :: ps => ⟨fun _ f d h => by simp [get] at h, hinv_refresh v ps⟩
+
+theorem hinv_dirty (v : Feat → Option D) : ∀ c : List (Lvl D), HInv v (hdirty c)
+  | [] => trivial
+  | l :: ps => ⟨fun h => by simp at h, hinv_dirty v ps⟩
+
+theorem sels_refresh (c : List (Lvl D)) : selsOf (hrefresh c) = selsOf c := by
+  simp [selsOf, hrefresh, List.map_map, Function.comp_def]
+
+theorem sels_dirty (c : List (Lvl D)) : selsOf (hdirty c) = selsOf c := by
+  simp [selsOf, hdirty, List.map_map, Function.comp_def]
+
+theorem hreadP_spec {σ : Type} (g : σ → Feat → σ × Option D) (P : σ → Prop)
+    (v : Feat → Option D) (hg : ∀ r f, P r → (g r f).2 = v f ∧ P (g r f).1) (f : Feat)
+    (chain : List (Lvl D)) (r : σ) (hP : P r) (hI : HInv v chain) :
+    (hreadP g r chain f).2 = hview (v f) chain ∧ P (hreadP g r chain f).1.1 ∧
+    HInv v (hreadP g r chain f).1.2 ∧ selsOf (hreadP g r chain f).1.2 = selsOf chain := by
+  unfold hreadP
+  by_cases hd : chain.any (·.dirty) = true
+  · simp only [hd, if_true]
+    have hc : ∀ l ∈ hrefresh chain, l.dirty = false := by
+      intro l hl
+      simp only [hrefresh, List.mem_map] at hl
+      obtain ⟨l0, _, rfl⟩ := hl; rfl
+    obtain ⟨h1, h2, h3, h4⟩ := hread_spec g P v hg f (hrefresh chain) r hP hc (hinv_refresh v chain)
+    exact ⟨by rw [h1, hview_congr _ (sels_refresh chain)], h2, h3, by rw [h4, sels_refresh]⟩
+  · simp only [hd]
+    have hc : ∀ l ∈ chain, l.dirty = false := by
+      intro l hl
+      simp only [List.any_eq_true, not_exists, not_and, Bool.not_eq_true] at hd
+      exact hd l hl
+    exact hread_spec g P v hg f chain r hP hc hI
+
+theorem hviewAt_congr (v : Option D) : ∀ (j : Nat) {c c' : List (Lvl D)},
+    selsOf c = selsOf c' → hviewAt v j c = hviewAt v j c'
+  | 0, c, c', h => by simp only [hviewAt]; exact hview_congr v h
+  | j + 1, [], [], _ => rfl
+  | j + 1, [], _ :: _, h => by simp [selsOf] at h
+  | j + 1, _ :: _, [], h => by simp [selsOf] at h
+  | j + 1, l :: ps, l' :: ps', h => by
+    simp only [hviewAt]
+    apply hviewAt_congr v j
+    simp only [selsOf, List.map_cons, List.cons.injEq] at h
+    exact h.2
+
+theorem hreadAt_spec {σ : Type} (g : σ → Feat → σ × Option D) (P : σ → Prop)
+    (v : Feat → Option D) (hg : ∀ r f, P r → (g r f).2 = v f ∧ P (g r f).1) (f : Feat) :
+    ∀ (j : Nat) (chain : List (Lvl D)) (r : σ), P r → HInv v chain →
+      (hreadAt g j r chain f).2 = hviewAt (v f) j chain ∧ P (hreadAt g j r chain f).1.1 ∧
+      HInv v (hreadAt g j r chain f).1.2 ∧ selsOf (hreadAt g j r chain f).1.2 = selsOf chain
+  | 0, chain, r, hP, hI => by simp only [hreadAt, hviewAt]; exact hreadP_spec g P v hg f chain r hP hI
+  | j + 1, [], r, hP, hI => by
+    simp only [hreadAt, hviewAt]; exact hreadP_spec g P v hg f [] r hP hI
+  | j + 1, l :: ps, r, hP, hI => by
+    obtain ⟨h1, h2, h3, h4⟩ := hreadAt_spec g P v hg f j ps r hP hI.2
+    simp only [hreadAt, hviewAt]
+    refine ⟨h1, h2, ⟨hinv_head_congr h4.symm hI.1, h3⟩, ?_⟩
+    simp only [selsOf, List.map_cons] at h4 ⊢; rw [h4]
+
+theorem hrefreshAt_spec (v : Feat → Option D) : ∀ (j : Nat) (c : List (Lvl D)), HInv v c →
+    HInv v (hrefreshAt j c) ∧ selsOf (hrefreshAt j c) = selsOf c
+  | 0, c, _ => by simp only [hrefreshAt]; exact ⟨hinv_refresh v c, sels_refresh c⟩
+  | j + 1, [], _ => by simp only [hrefreshAt]; exact ⟨hinv_refresh v [], sels_refresh []⟩
+  | j + 1, l :: ps, hI => by
+    obtain ⟨h1, h2⟩ := hrefreshAt_spec v j ps hI.2
+    simp only [hrefreshAt]
+    refine ⟨⟨hinv_head_congr h2.symm hI.1, h1⟩, ?_⟩
+    simp only [selsOf, List.map_cons] at h2 ⊢; rw [h2]
+
+theorem hsettAt_spec (v : Feat → Option D) : ∀ (j : Nat) (c : List (Lvl D)),
+    HInv v (hsettAt j c) ∧ selsOf (hsettAt j c) = selsOf c
+  | 0, c => by simp only [hsettAt]; exact ⟨hinv_refresh v c, sels_refresh c⟩
+  | j + 1, [] => by simp only [hsettAt]; exact ⟨hinv_refresh v [], sels_refresh []⟩
+  | j + 1, l :: ps => by
+    obtain ⟨h1, h2⟩ := hsettAt_spec v j ps
+    simp only [hsettAt]
+    refine ⟨⟨fun h => by simp at h, h1⟩, ?_⟩
+    simp only [selsOf, List.map_cons] at h2 ⊢; rw [h2]
+
+theorem hfiltAt_spec (v : Feat → Option D) (sel : D → D) : ∀ (j : Nat) (c c' : List (Lvl D)),
+    HInv v c → selsOf c = selsOf c' →
+    HInv v (hfiltAt sel j c) ∧ selsOf (hfiltAt sel j c) = selsOf (hfiltAt sel j c')
+  | 0, [], [], _, _ => ⟨trivial, rfl⟩
+  | 0, [], _ :: _, _, h => by simp [selsOf] at h
+  | 0, _ :: _, [], _, h => by simp [selsOf] at h
+  | 0, l :: ps, l' :: ps', hI, h => by
+    simp only [hfiltAt]
+    simp only [selsOf, List.map_cons, List.cons.injEq] at h ⊢
+    exact ⟨⟨fun hd => by simp at hd, hI.2⟩, trivial, h.2⟩
+  | j + 1, [], [], _, _ => ⟨trivial, rfl⟩
+  | j + 1, [], _ :: _, _, h => by simp [selsOf] at h
+  | j + 1, _ :: _, [], _, h => by simp [selsOf] at h
+  | j + 1, l :: ps, l' :: ps', hI, h => by
+    simp only [selsOf, List.map_cons, List.cons.injEq] at h
+    obtain ⟨h1, h2⟩ := hfiltAt_spec v sel j ps ps' hI.2 h.2
+    simp only [hfiltAt]
+    refine ⟨⟨fun hd => by simp at hd, h1⟩, ?_⟩
+    simp only [selsOf, List.map_cons, List.cons.injEq] at h2 ⊢
+    exact ⟨h.1, h2⟩
+
+/-- lock-step of the long-lived hierarchy and one that is rebuilt before every read -/
+theorem hrun_spec [DecidableEq D] [DecidableEq V] {e : Env D V} (hs : Sound e) (n : Nat) :
+    ∀ (ops : List (HOp D V)) (s : St D V) (C : Cache D V) (c c' : List (Lvl D)),
+      Wf e s → Inv e C → HInv (fresh e n s) c → selsOf c = selsOf c' →
+      (hrun e n ((s, C), c) ops).2 = (hspecRun e n (s, c') ops).2
+  | [], _, _, _, _, _, _, _, _ => rfl
+  | op :: ops, s, C, c, c', hw, hC, hI, hsel => by
+    simp only [hrun, hspecRun]
+    cases op with
+    | edit o =>
+      simp only [hstep, hspecStep]
+      rw [hrun_spec hs n ops (edit e s o) C (hdirty c) c' (wf_edit hw o) hC (hinv_dirty _ c)
+        (by rw [sels_dirty, hsel])]
+    | settVia j f d =>
+      simp only [hstep, hspecStep]
+      obtain ⟨h1, h2⟩ := hsettAt_spec (fresh e n (edit e s (.setT f d))) j c
+      rw [hrun_spec hs n ops (edit e s (.setT f d)) C (hsettAt j c) c' (wf_edit hw _) hC h1
+        (by rw [h2, hsel])]
+    | refresh j =>
+      simp only [hstep, hspecStep]
+      obtain ⟨h1, h2⟩ := hrefreshAt_spec (fresh e n s) j c hI
+      rw [hrun_spec hs n ops s C (hrefreshAt j c) c' hw hC h1 (by rw [h2, hsel])]
+    | filt j sel =>
+      simp only [hstep, hspecStep]
+      obtain ⟨h1, h2⟩ := hfiltAt_spec (fresh e n s) sel j c c' hI hsel
+      rw [hrun_spec hs n ops s C (hfiltAt sel j c) (hfiltAt sel j c') hw hC h1 h2]
+    | read j f =>
+      simp only [hstep, hspecStep]
+      have hg : ∀ (r : St D V × Cache D V) (f : Feat), (r.1 = s ∧ Inv e r.2) →
+          ((fun (sc : St D V × Cache D V) g =>
+              let r := getitem e n sc.2 sc.1 g; ((sc.1, r.1), r.2)) r f).2 = fresh e n s f ∧
+          (((fun (sc : St D V × Cache D V) g =>
+              let r := getitem e n sc.2 sc.1 g; ((sc.1, r.1), r.2)) r f).1.1 = s ∧
+           Inv e ((fun (sc : St D V × Cache D V) g =>
+              let r := getitem e n sc.2 sc.1 g; ((sc.1, r.1), r.2)) r f).1.2) := by
+        intro r f ⟨hr1, hr2⟩
+        obtain ⟨g1, g2⟩ := getitem_spec hs n r.2 r.1 f (hr1 ▸ hw) hr2
+        exact ⟨by rw [← hr1]; exact g1, hr1, g2⟩
+      obtain ⟨h1, h2, h3, h4⟩ := hreadAt_spec _ (fun r => r.1 = s ∧ Inv e r.2) (fresh e n s) hg f
+        j c (s, C) ⟨rfl, hC⟩ hI
+      rw [h1, hviewAt_congr _ j hsel]
+      congr 1
+      have hs1 : (hreadAt (fun (sc : St D V × Cache D V) g =>
+          let r := getitem e n sc.2 sc.1 g; ((sc.1, r.1), r.2)) j (s, C) c f).1.1.1 = s := h2.1
+      have := hrun_spec hs n ops s _ _ c' hw h2.2 h3 (by rw [h4, hsel])
+      rw [← this]
+      congr 2
+      exact Prod.ext (Prod.ext hs1 rfl) rfl
+
 /-! ## availability -/
 
 /-- no registered method raises, and every method returns its own feature -/
@@ -345,6 +565,29 @@ theorem avail_eq_fresh_isSome {e : Env D V} (hn : NoRaise e) :
         obtain ⟨outs, ho, hg⟩ := hn r hr (r.readsF.map (fresh e n s)) (r.readsC.map (getC s))
         simp only [h2, if_true, ho, Option.bind, ← hname]
         exact hg.symm
+
+/-! ## selection depends on presence only -/
+
+theorem recAvail_presence {e : Env D V} {s s' : St D V}
+    (hc : ∀ k, (getC s k).isSome = (getC s' k).isSome)
+    (hb : ∀ f, (base e s f).isSome = (base e s' f).isSome)
+    (hch : e.chanOk (getC s chipKey) = e.chanOk (getC s' chipKey)) :
+    ∀ (n : Nat) (r : Recipe D V), recAvail e n s r = recAvail e n s' r
+  | 0, _ => rfl
+  | n + 1, r => by
+    have ih : recAvail e n s = recAvail e n s' := funext (recAvail_presence hc hb hch n)
+    have hg : guardOk e s r = guardOk e s' r := by
+      unfold guardOk
+      cases r.guard <;> simp only [hch, hb]
+    simp only [recAvail, hc, hb, ih, hg]
+
+theorem selected_presence {e : Env D V} {s s' : St D V}
+    (hc : ∀ k, (getC s k).isSome = (getC s' k).isSome)
+    (hb : ∀ f, (base e s f).isSome = (base e s' f).isSome)
+    (hch : e.chanOk (getC s chipKey) = e.chanOk (getC s' chipKey)) (n : Nat) (f : Feat) :
+    selected e n s f = selected e n s' f := by
+  have : recAvail e n s = recAvail e n s' := funext (recAvail_presence hc hb hch n)
+  simp only [selected, this]
 
 /-! ## the concrete registry -/
 
